@@ -21,6 +21,7 @@ var c01Specs = []famSpec{
 	{Family: "big-n-mid", Pool: 1500, PoolQ: 30},
 	{Family: "rand-wide", FreshQ: 6000, FreshT: 300000},
 	{Family: "rectilinear", FreshQ: 3000, FreshT: 100000},
+	{Family: "nested-small", Pool: 40000, PoolQ: 2000},
 	{Family: "nested", FreshQ: 2000, FreshT: 60000},
 	{Family: "degenerate-wide", FreshQ: 2000, FreshT: 60000},
 	{Family: "big-n", FreshQ: 60, FreshT: 2000},
@@ -115,7 +116,7 @@ func c01Run(ctx *run.Ctx, id run.CaseID) {
 					ctx.Count("points_compared", 1)
 					if got != want && bad == 0 {
 						bad++
-						ctx.Fail(digest, sub, "", fmt.Sprintf("point %s: winding subject=%d clip=%d -> expected inside=%v, solution winding=%d (on boundary=%v); distance to nearest input edge=%.3f; solution=%v",
+						ctx.Fail(digest, sub, discardClassPoint(subj, clp, ct, fr, p), fmt.Sprintf("point %s: winding subject=%d clip=%d -> expected inside=%v, solution winding=%d (on boundary=%v); distance to nearest input edge=%.3f; solution=%v",
 							fmtPt(p), pr.wS[i], pr.wC[i], want, w, on, edges.MinDist(p), sol), in)
 					}
 				}
